@@ -189,6 +189,24 @@ func randAnnotations(c *core.Ctx) (map[string]any, []string) {
 		m["count"] = 1 + c.Rng.Intn(1000)
 		types["count"] = true
 	}
+	if c.Rng.Intn(12) == 0 {
+		// keys whose names have a meaning for the toolkit (merged_*, *_count, *_status) holding maps
+		// of numbers that are not all integers, or of strings: values are kept as they are
+		k := []string{"merged_sample", "merged_q", "obiclean_count", "reads_count", "obiclean_status"}[c.Rng.Intn(5)]
+		mv := map[string]any{}
+		for j := 0; j < 1+c.Rng.Intn(3); j++ {
+			switch c.Rng.Intn(3) {
+			case 0:
+				mv[fmt.Sprintf("s%d", j)] = float64(c.Rng.Intn(50)) + []float64{0.5, 0.25, 0.1}[c.Rng.Intn(3)]
+			case 1:
+				mv[fmt.Sprintf("s%d", j)] = c.Rng.Intn(50)
+			default:
+				mv[fmt.Sprintf("s%d", j)] = randString(c)
+			}
+		}
+		m[k] = mv
+		types["special-key-map"] = true
+	}
 	if c.Rng.Intn(40) == 0 {
 		// a title line longer than the 4 KiB / 64 KiB buffers of the usual line readers: what a
 		// dereplicated record with a few hundred samples carries
